@@ -279,7 +279,8 @@ class ExprBuilder:
             return ("bin", CMP_CALLS[path], args[0], args[1])
         if path == "std::ops::Not::not" and len(args) == 1:
             return ("un", "Not", args[0])
-        if path in LEN_CALLS and len(args) == 1:
+        if (path in LEN_CALLS or (c.name == "len" and c.local_did is not None)) and len(args) == 1:
+            # crate-local `len()` methods are lengths too (IdpfInput::len, ...)
             return ("len", args[0])
         if path is not None and path.endswith("box_assume_init_into_vec_unsafe") and len(t.args) == 1:
             v = self.vec_literal(t.args[0])
